@@ -330,6 +330,18 @@ def unit_slot_init(ctx):
         else:
             obs.append(sc.interleaving_obligation(3, 3))
         obs += gen
+        # emit::Setup hands all five configured components to the slot
+        text2, secs2 = engine.dump_mir(u.tree, "", os.path.join(u.dir, "t-mir-emit"), default_features=False,
+                                       log=os.path.join(u.dir, "mir-emit.log"), features=["std", "implicit_rt", "implicit_internal_rt"])
+        _log(ctx, "MIR of emit (std, implicit_rt, implicit_internal_rt) dumped in %.0fs (%d lines)" % (secs2, text2.count("\n")))
+        P2 = Program(u.tree)
+        P2.add_dump(text2, "emit")
+        def native_emit():
+            if "e" not in nat_box:
+                nat_box["e"] = u.native("setup", [("", ["std", "implicit_rt", "implicit_internal_rt"], False)])
+            return nat_box["e"]
+
+        obs += sc.setup_obligations(P2, native_emit)
         cfg_driver.decide_cfg(ctx, obs, u.dir, jobs=_jobs())
     except (engine.EngineError, Unsupported, Inconclusive) as e:
         _cfg_fail(ctx, "E2cfg_slot_init", "E2-cfg slot unit: %s" % e)
